@@ -1,2 +1,247 @@
-(* Proofs/BedProofs.v *)
+(* Proofs/BedProofs.v — facts about the Base.v vocabulary needed by the BED
+   round trip: itoa/atoi are inverse on int64, the bytes itoa emits, split_on
+   inverts join_with, and ParseUint(_,0,8) on the decimal text of a byte. *)
+From Coq Require Import DecimalZ DecimalPos.
 From Bio Require Import Base.
+From Bio.Model Require Import Bed.
+
+(* ------------------------------------------------------------------ *)
+(* [nob x s]: byte x does not occur in s                                *)
+Definition nob (x : byte) (s : bytes) : Prop := Forall (fun c => (c =? x) = false) s.
+
+Lemma nob_app x a b : nob x a -> nob x b -> nob x (a ++ b).
+Proof. intros; apply Forall_app; split; assumption. Qed.
+
+Lemma nob_cons x c s : (c =? x) = false -> nob x s -> nob x (c :: s).
+Proof. intros; constructor; assumption. Qed.
+
+Lemma nob_nil x : nob x [].
+Proof. constructor. Qed.
+
+Lemma clean_nob bad s x : clean bad s -> memb x bad = true -> nob x s.
+Proof.
+  intros Hc Hm. unfold clean in Hc. unfold nob.
+  eapply Forall_impl; [| exact Hc]. intros c Hcb. cbv beta in Hcb.
+  destruct (c =? x) eqn:E; [| reflexivity].
+  apply N.eqb_eq in E. subst c. rewrite Hm in Hcb. discriminate.
+Qed.
+
+(* ------------------------------------------------------------------ *)
+(* itoa / atoi                                                          *)
+Definition numch (c : byte) : Prop := c = 45 \/ (48 <= c /\ c <= 57).
+
+Lemma uint_bytes_digits u : Forall (fun c => 48 <= c /\ c <= 57) (uint_bytes u).
+Proof. induction u; cbn [uint_bytes]; constructor; try assumption; lia. Qed.
+
+Lemma itoa_numch z : Forall numch (itoa z).
+Proof.
+  unfold itoa. destruct (Z.to_int z) as [u|u].
+  - eapply Forall_impl; [| apply uint_bytes_digits]. intros c H; right; exact H.
+  - constructor. { left; reflexivity. }
+    eapply Forall_impl; [| apply uint_bytes_digits]. intros c H; right; exact H.
+Qed.
+
+Lemma itoa_nob x z : x <> 45 -> (x < 48 \/ 57 < x) -> nob x (itoa z).
+Proof.
+  intros H1 H2. eapply Forall_impl; [| apply itoa_numch].
+  intros c [Hc|Hc]; apply N.eqb_neq; lia.
+Qed.
+
+Lemma bytes_uint_uint_bytes u : bytes_uint (uint_bytes u) = Some u.
+Proof. induction u; cbn [uint_bytes bytes_uint]; [reflexivity | rewrite IHu; reflexivity ..]. Qed.
+
+Lemma uint_bytes_nonnil u : u <> Decimal.Nil -> uint_bytes u <> [].
+Proof. destruct u; cbn [uint_bytes]; congruence. Qed.
+
+Lemma parse_digits_uint_bytes u : u <> Decimal.Nil ->
+  parse_digits (uint_bytes u) = Some (Z.of_uint u).
+Proof.
+  intros H. unfold parse_digits. rewrite bytes_uint_uint_bytes.
+  destruct (uint_bytes u) eqn:E; [| reflexivity].
+  exfalso. exact (uint_bytes_nonnil u H E).
+Qed.
+
+(* the unsigned branch of atoi is taken for a digit string *)
+Lemma atoi_unsigned u z : u <> Decimal.Nil -> Z.of_uint u = z -> int64 z ->
+  atoi (uint_bytes u) = Some z.
+Proof.
+  intros Hn Hz Hr.
+  assert (Hb : int64b z = true).
+  { unfold int64b. unfold int64 in Hr. apply andb_true_intro; split;
+    [apply Z.leb_le | apply Z.ltb_lt]; lia. }
+  pose proof (parse_digits_uint_bytes u Hn) as Hp.
+  unfold atoi.
+  destruct u; try congruence; cbn [uint_bytes] in *; rewrite Hp, Hz, Hb; reflexivity.
+Qed.
+
+Lemma to_int_nonnil_pos p : Pos.to_uint p <> Decimal.Nil.
+Proof. apply Unsigned.to_uint_nonnil. Qed.
+
+Lemma atoi_itoa z : int64 z -> atoi (itoa z) = Some z.
+Proof.
+  intros Hr. pose proof (DecimalZ.of_to z) as Hot.
+  unfold itoa. destruct z as [|p|p]; cbn [Z.to_int] in *.
+  - apply atoi_unsigned; [discriminate | reflexivity | exact Hr].
+  - apply atoi_unsigned; [apply to_int_nonnil_pos | exact Hot | exact Hr].
+  - cbn [Z.of_int] in Hot.
+    assert (Hb : int64b (Z.neg p) = true).
+    { unfold int64b. unfold int64 in Hr. apply andb_true_intro; split;
+      [apply Z.leb_le | apply Z.ltb_lt]; lia. }
+    unfold atoi. rewrite parse_digits_uint_bytes by apply to_int_nonnil_pos.
+    cbn [option_map]. rewrite Hot, Hb. reflexivity.
+Qed.
+
+Lemma itoa_nonnil z : itoa z <> [].
+Proof.
+  unfold itoa. destruct z as [|p|p]; cbn [Z.to_int].
+  - discriminate.
+  - apply uint_bytes_nonnil, to_int_nonnil_pos.
+  - discriminate.
+Qed.
+
+Lemma opt_atoi_itoa z : int64 z -> opt_atoi (itoa z) = Some z.
+Proof.
+  intros H. unfold opt_atoi. destruct (itoa z) eqn:E.
+  - exfalso. exact (itoa_nonnil z E).
+  - rewrite <- E. apply atoi_itoa, H.
+Qed.
+
+(* ------------------------------------------------------------------ *)
+(* split_on / join_with                                                 *)
+Lemma split_on_free sep f : nob sep f -> split_on sep f = [f].
+Proof.
+  induction f as [|c f IH]; intros H; [reflexivity|].
+  inversion H as [|? ? Hc Hf]; subst. cbn [split_on]. rewrite Hc, (IH Hf). reflexivity.
+Qed.
+
+Lemma split_on_app sep f rest : nob sep f ->
+  split_on sep (f ++ sep :: rest) = f :: split_on sep rest.
+Proof.
+  induction f as [|c f IH]; intros H.
+  - cbn [app split_on]. rewrite N.eqb_refl. reflexivity.
+  - inversion H as [|? ? Hc Hf]; subst. cbn [app split_on]. rewrite Hc, (IH Hf). reflexivity.
+Qed.
+
+Lemma join_with_cons2 sep x y r :
+  join_with sep (x :: y :: r) = x ++ sep ++ join_with sep (y :: r).
+Proof. reflexivity. Qed.
+
+Lemma split_join sep l : l <> [] -> Forall (nob sep) l ->
+  split_on sep (join_with [sep] l) = l.
+Proof.
+  induction l as [|x l IH]; intros Hne Hl; [congruence|].
+  inversion Hl as [|? ? Hx Hr]; subst.
+  destruct l as [|y r].
+  - cbn [join_with]. apply split_on_free, Hx.
+  - rewrite join_with_cons2. cbn [app]. rewrite split_on_app by exact Hx.
+    rewrite IH; [reflexivity | discriminate | exact Hr].
+Qed.
+
+Lemma nob_join x sep l : nob x sep -> Forall (nob x) l -> nob x (join_with sep l).
+Proof.
+  intros Hs. induction l as [|a l IH]; intros Hl; [apply nob_nil|].
+  inversion Hl as [|? ? Ha Hr]; subst.
+  destruct l as [|b r]; [exact Ha|].
+  rewrite join_with_cons2. apply nob_app; [exact Ha|]. apply nob_app; [exact Hs|]. apply IH, Hr.
+Qed.
+
+Lemma join_nonnil sep x l : x <> [] -> join_with sep (x :: l) <> [].
+Proof.
+  intros Hx. destruct l as [|y r]; [exact Hx|].
+  rewrite join_with_cons2. destruct x; [congruence | discriminate].
+Qed.
+
+(* ------------------------------------------------------------------ *)
+(* block lists                                                          *)
+Definition ints_text (l : list Z) : bytes := join_with [COMMA] (map itoa l).
+
+Lemma atoi_all_itoa l : Forall int64 l -> atoi_all (map itoa l) = Some l.
+Proof.
+  induction 1 as [|z l Hz Hl IH]; [reflexivity|].
+  cbn [map atoi_all]. rewrite (atoi_itoa z Hz), IH. reflexivity.
+Qed.
+
+Lemma itoa_no_comma z : nob COMMA (itoa z).
+Proof. apply itoa_nob; unfold COMMA; lia. Qed.
+
+Lemma parse_ints_text l : Forall int64 l -> parse_ints (ints_text l) = Some l.
+Proof.
+  intros H. destruct l as [|z l]; [reflexivity|].
+  unfold parse_ints, ints_text.
+  destruct (join_with [COMMA] (map itoa (z :: l))) eqn:E.
+  - exfalso. cbn [map] in E. exact (join_nonnil _ _ _ (itoa_nonnil z) E).
+  - rewrite <- E. rewrite split_join.
+    + apply atoi_all_itoa, H.
+    + discriminate.
+    + apply Forall_forall. intros s Hs. apply in_map_iff in Hs. destruct Hs as [w [<- _]].
+      apply itoa_no_comma.
+Qed.
+
+Lemma ints_text_nob x l : x <> 45 -> x <> COMMA -> (x < 48 \/ 57 < x) -> nob x (ints_text l).
+Proof.
+  intros H1 H2 H3. apply nob_join.
+  - apply nob_cons; [apply N.eqb_neq; congruence | apply nob_nil].
+  - apply Forall_forall. intros s Hs. apply in_map_iff in Hs. destruct Hs as [w [<- _]].
+    apply itoa_nob; assumption.
+Qed.
+
+Lemma concat_list_calls_rest l :
+  concat (list_calls_rest l) = concat (map (fun x => COMMA :: itoa x) l).
+Proof. induction l as [|x l IH]; [reflexivity|]. cbn [list_calls_rest map concat]. rewrite IH. reflexivity. Qed.
+
+Lemma concat_list_calls l : concat (list_calls l) = ints_text l.
+Proof.
+  unfold ints_text. destruct l as [|x l]; [reflexivity|].
+  cbn [list_calls concat map]. revert x.
+  induction l as [|y l IH]; intros x.
+  - cbn [list_calls_rest concat join_with]. apply app_nil_r.
+  - cbn [list_calls_rest concat map]. rewrite join_with_cons2. cbn [app].
+    rewrite <- (IH y). reflexivity.
+Qed.
+
+(* ------------------------------------------------------------------ *)
+(* ParseUint(s, 0, 8) on the decimal text of a byte: all 256 values     *)
+Definition bytes256 : list N := map N.of_nat (seq 0 (N.to_nat 256)).
+
+Lemma parse_uint8_sweep :
+  forallb (fun n => match parse_uint8 (fmt_byte n) with Some m => m =? n | None => false end)
+          bytes256 = true.
+Proof. vm_compute. reflexivity. Qed.
+
+Lemma parse_uint8_fmt_byte n : n < 256 -> parse_uint8 (fmt_byte n) = Some n.
+Proof.
+  intros H. pose proof parse_uint8_sweep as S. rewrite forallb_forall in S.
+  assert (Hin : In n bytes256).
+  { unfold bytes256. apply in_map_iff. exists (N.to_nat n). split; [apply N2Nat.id|].
+    apply in_seq. lia. }
+  specialize (S n Hin). destruct (parse_uint8 (fmt_byte n)) as [m|]; [|discriminate].
+  apply N.eqb_eq in S. congruence.
+Qed.
+
+Lemma fmt_byte_nob x n : x <> 45 -> (x < 48 \/ 57 < x) -> nob x (fmt_byte n).
+Proof. intros; apply itoa_nob; assumption. Qed.
+
+Lemma rgb_text_nob x c : x <> 45 -> x <> COMMA -> (x < 48 \/ 57 < x) -> nob x (rgb_text c).
+Proof.
+  intros H1 H2 H3. destruct c as [[r g] b]. unfold rgb_text.
+  apply nob_app; [apply fmt_byte_nob; assumption|].
+  apply nob_cons; [apply N.eqb_neq; congruence|].
+  apply nob_app; [apply fmt_byte_nob; assumption|].
+  apply nob_cons; [apply N.eqb_neq; congruence|].
+  apply fmt_byte_nob; assumption.
+Qed.
+
+Lemma parse_rgb_text r g b : r < 256 -> g < 256 -> b < 256 ->
+  parse_rgb (rgb_text (r, g, b)) = Some (r, g, b).
+Proof.
+  intros Hr Hg Hb. unfold parse_rgb.
+  destruct (rgb_text (r, g, b)) eqn:E.
+  - exfalso. unfold rgb_text in E. destruct (fmt_byte r) eqn:F.
+    + exact (itoa_nonnil _ F).
+    + discriminate.
+  - rewrite <- E. unfold rgb_text.
+    assert (Hc : forall n, nob COMMA (fmt_byte n)) by (intros; apply itoa_no_comma).
+    rewrite split_on_app by apply Hc. rewrite split_on_app by apply Hc.
+    rewrite split_on_free by apply Hc.
+    rewrite !parse_uint8_fmt_byte by assumption. reflexivity.
+Qed.
